@@ -294,4 +294,61 @@ class GettersSkippedMidnight(Sub):
         return True, "month-without-first-midnight"
 
 
-SUBS = [Years(), Dates(), LocalTimeBoundaries(), LocalTimeRandom(), AwareGetters(), GettersSkippedMidnight()]
+PROCESS_TZ = ["Asia/Tokyo", "America/St_Johns", "Pacific/Apia", "Asia/Kathmandu", "America/New_York", "Europe/London", "Australia/Lord_Howe", "Pacific/Kiritimati",
+              "America/Sao_Paulo", "Africa/Monrovia", "Etc/GMT+12", "JST-9", "EST5EDT,M3.2.0,M11.1.0", "<-0330>3:30", ""]
+
+
+class ProcessTimeZone(Sub):
+    """the primitives are statements about the proleptic Gregorian calendar: the zone the *process* runs in (TZ at the moment pendulum is imported) is not an input"""
+    name = "process_time_zone"
+    backends = ("rust", "py")
+    n = {"quick": 96, "thorough": 1600}
+    shards = {"quick": 4, "thorough": 8}
+    case_timeout = 600.0
+    rule = ("a fresh interpreter per case with TZ set before pendulum is imported (named zones, POSIX strings, unset) x backend; 12 (timestamp, offset, us) triples and 6 years "
+            "per interpreter; every case is non-trivial unless TZ is a zone at offset 0 the whole year")
+
+    def strategy(self, ctx):
+        trip = st.tuples(st.one_of(S.uni(LO, HI), S.uni(-10**10, 10**10), st.sampled_from([0, -1, 946684800, 946684799, 951782400])),
+                         st.one_of(st.sampled_from([0, 3600, -3600, 32400, -12600]), st.integers(-86399, 86399)), st.sampled_from([0, 1, 999999]))
+        return st.fixed_dictionaries({"tz": st.one_of(st.sampled_from(PROCESS_TZ), S.zones()), "cases": st.lists(trip, min_size=12, max_size=12),
+                                      "years": st.lists(st.one_of(st.integers(1, 9999), st.sampled_from([1, 4, 100, 400, 1900, 2000, 2015, 2020, 9999])), min_size=6, max_size=6)})
+
+    def check(self, case, ctx):
+        import json
+        import os
+        import subprocess
+        import sys
+        from vf import env
+        e = dict(os.environ)
+        e["PYTHONPATH"] = env.pythonpath()
+        e["PENDULUM_EXTENSIONS"] = "1" if ctx.backend == "rust" else "0"
+        if case["tz"]:
+            e["TZ"] = case["tz"]
+        else:
+            e.pop("TZ", None)
+        r = subprocess.run([sys.executable, "-m", "vf.tz_child"], input=json.dumps({"backend": ctx.backend, "cases": case["cases"], "years": case["years"]}),
+                           env=e, cwd=env.VERIF, capture_output=True, text=True, timeout=300)
+        if r.returncode != 0:
+            raise env.HarnessError("tz_child failed:\n" + (r.stderr or r.stdout)[-2000:])
+        out = json.loads(r.stdout)
+        names = ("python", "rust", "pendulum.helpers")
+        for (t, off, us), got in zip(case["cases"], out["local_time"]):
+            x = EP + D.timedelta(seconds=t + off)
+            exp = [x.year, x.month, x.day, x.hour, x.minute, x.second, us]
+            for nm, g in zip(names, got):
+                req(g == exp, f"{nm} local_time({t}, {off}, {us}) depends on the time zone of the process (TZ={case['tz']!r} at import)", got=g, expected=exp)
+        for (t, off, us), g in zip(case["cases"], out["getters"]):
+            x = EP + D.timedelta(seconds=t)
+            ic = x.isocalendar()
+            exp = [x.year, x.month, x.day, x.hour, x.minute, x.second, x.weekday(), x.timetuple().tm_yday, ic[1], calendar.monthrange(x.year, x.month)[1],
+                   (x.month - 1) // 3 + 1]
+            req(g == exp, f"from_timestamp({t}) fields/getters depend on the time zone of the process (TZ={case['tz']!r} at import)", got=g, expected=exp)
+        for y, got in zip(case["years"], out["years"]):
+            exp = [calendar.isleap(y), D.date(y, 12, 28).isocalendar()[1] == 53, 366 if calendar.isleap(y) else 365, D.date(y, 3, 1).isoweekday()]
+            for nm, g in zip(names, got):
+                req(g == exp, f"{nm} year primitives for {y} depend on the time zone of the process (TZ={case['tz']!r})", got=g, expected=exp)
+        return out["utc_offset_2000"] != 0 or out["tzname"][0] not in ("UTC", "GMT"), "tz-offset-nonzero" if out["utc_offset_2000"] else "tz-offset-zero"
+
+
+SUBS = [Years(), Dates(), LocalTimeBoundaries(), LocalTimeRandom(), AwareGetters(), GettersSkippedMidnight(), ProcessTimeZone()]
